@@ -27,8 +27,8 @@ RULE = (
     "Non-trivial = configuration in which parameters changed during training "
     "and run C differs from run A; distinct by (routine, environment, seed)"
 )
-REQUIRED = {"configurations_compared": 24, "digest_fields_compared": 300,
-            "configurations_where_seed_matters": 18}
+REQUIRED = {"configurations_compared": 28, "digest_fields_compared": 300,
+            "configurations_where_seed_matters": 20}
 TIMEOUT = {"quick": 1700, "thorough": 7000}
 ASSUMPTIONS = ["the environment (and its action-space sampler) is seeded by the "
                "harness before the call, as the statement requires",
@@ -38,9 +38,14 @@ ALGOS = ["q_learning", "sarsa", "double_q_learning", "monte_carlo", "dynaq", "dq
          "nature_dqn", "ddqn", "per", "ddpg", "td3", "td3_lap", "sac", "td7", "mrq",
          "pets", "reinforce", "actor_critic", "a2c", "ppo", "cmaes", "sched:uts",
          "sched:smt", "sched:amt"]
-GYM = [("ddpg", "Pendulum-v1"), ("sac", "Pendulum-v1"), ("td3_lap", "Pendulum-v1"),
-       ("ddqn", "CartPole-v1"), ("per", "CartPole-v1"),
-       ("q_learning", "CliffWalking-v1"), ("sarsa", "CliffWalking-v1")]
+GYM = [("ddpg", "Pendulum-v1", None), ("sac", "Pendulum-v1", None),
+       ("td3_lap", "Pendulum-v1", None), ("ddqn", "CartPole-v1", None),
+       ("per", "CartPole-v1", None), ("q_learning", "CliffWalking-v1", None),
+       ("sarsa", "CliffWalking-v1", None),
+       # environments behind a wrapper that defines its own action space
+       ("pets", "Pendulum-v1", "rescale"), ("td3", "Pendulum-v1", "rescale"),
+       ("sac", "Pendulum-v1", "rescale"), ("td7", "Pendulum-v1", "rescale"),
+       ("mrq", "Pendulum-v1", "rescale")]
 COST = {"mrq": 40, "pets": 30, "td7": 25, "dqn": 18, "ppo": 20, "dynaq": 15,
         "sac": 12, "sched:smt": 15, "sched:amt": 15, "sched:uts": 15}
 
@@ -71,9 +76,10 @@ def gen_cases(tier, seed):
         for algo in ALGOS:
             cases.append(dict(cfg=base_cfg(algo, int(rng.integers(1, 1 << 16)), rng),
                               cost=COST.get(algo, 8)))
-        for algo, env_id in GYM:
+        for algo, env_id, wrap in GYM:
             cfg = base_cfg(algo, int(rng.integers(1, 1 << 16)), rng)
             cfg["gym_env"] = env_id
+            cfg["gym_wrap"] = wrap
             cfg["gym_max_steps"] = 17
             cfg["low"], cfg["high"] = [-2.0], [2.0]
             cases.append(dict(cfg=cfg, cost=COST.get(algo, 8)))
@@ -95,7 +101,8 @@ def one_run(cfg, ambient, hashseed):
 def run_case(case):
     res = Result()
     cfg = case["cfg"]
-    algo = cfg["algo"] + (":" + cfg["gym_env"] if cfg.get("gym_env") else "")
+    algo = cfg["algo"] + (":" + cfg["gym_env"] if cfg.get("gym_env") else "") + (
+        "+" + cfg["gym_wrap"] if cfg.get("gym_wrap") else "")
     runs = []
     for ambient, hs, c in ((11, 1, cfg), (977, 4242, cfg),
                            (11, 1, dict(cfg, seed=cfg["seed"] + 1))):
